@@ -785,6 +785,12 @@ func (b *BlockWise[C]) processReceivedMessage(w *responsewriter.ResponseWriter[C
 		szx = getSzx(szx, maxSzx)
 		// if there is no more then just forward req to next handler
 		if !more {
+			if blockType == message.Block1 && num > 0 {
+				// the final block of an upload whose preceding blocks are not (or no longer) available, e.g. a
+				// duplicate of the final block after the body was delivered: RFC 7959 section 2.5 asks for
+				// 4.08 Request Entity Incomplete, the block must not be presented as the complete body
+				return fmt.Errorf("unexpected final block(%v) without preceding blocks", num)
+			}
 			next(w, r)
 			return nil
 		}
